@@ -20,6 +20,9 @@ type gcsCase struct {
 	Forms bool `json:"forms,omitempty"`
 }
 
+// c02NamesMem: folder placeholders (names that end in the separator), which only the memory store can hold.
+var c02NamesMem = []string{"dir/", "p/q/"}
+
 var c02Names = []string{"a", "a/b", "a.b/c.d", "a b", "ü", "a%2Fb", "x?y#z", ".hidden", "d/e/f.txt", "log..1/part..2", "a..b"}
 
 func c02Tag(o *GOp) string {
@@ -230,7 +233,11 @@ func runC02(c *fw.Ctx) {
 	var item int64
 	// Part A: protocol x payload x md5 x gzip x name
 	for _, store := range stores {
-		for _, name := range c02Names {
+		names := c02Names
+		if store == "mem" {
+			names = append(append([]string(nil), c02Names...), c02NamesMem...)
+		}
+		for _, name := range names {
 			for _, proto := range []string{"media", "multipart", "resumable"} {
 				for pi, data := range payloads {
 					for md := 0; md < 4; md++ {
@@ -454,6 +461,7 @@ func runC02(c *fw.Ctx) {
 		}
 	}
 	c.Bound("names", c02Names)
+	c.Bound("names_memory_store_only", c02NamesMem)
 	c.Bound("payload_sizes", func() []int {
 		var s []int
 		for _, p := range payloads {
